@@ -1,8 +1,8 @@
 (* C13 - Spectrum arithmetic is pointwise, commutative and unit-agnostic.
    Model: Model/Spectrum.v (lentil.radiometry.Spectrum._ufunc, _interp_common, _sampling, _intersect,
    sample, to; numpy.linspace; scipy interp1d kind='linear'), on exact rationals Qc.
-   [spec_op fx o s1 s2 m f] is  s1.<o>(s2, sampling=m, method='linear', fill_value=f);
-   fx = false is the code as it is, fx = true the code with proposed_fixes/c13-fill-pair.patch.
+   [spec_op o s1 s2 m f] is  s1.<o>(s2, sampling=m, method='linear', fill_value=f)
+   (the code after fix bbdee10: a two-element fill value is (below, above) each operand's own range).
    [wf s]: strictly increasing wavelengths, as many values, at least one sample (what the
    constructor enforces).  The specification vocabulary ([incr wf is_min_of on_interpolant denotes
    rmap_res]) is defined at the end of Model/Spectrum.v.
@@ -15,8 +15,8 @@ Open Scope Qc_scope.
    num + 1 = ceil((mx - mn)/dw) + 1 points  mn + i (mx - mn)/num,  starts at mn, ends at mx, and its step
    does not exceed dw *)
 Theorem C13_common_grid :
-  forall (fx : bool) (o : binop) (s1 s2 : spectrum) (m : sampling) (f : fillv) (r : rspectrum),
-  wf s1 -> wf s2 -> spec_op fx o s1 s2 m f = Ok r ->
+  forall (o : binop) (s1 s2 : spectrum) (m : sampling) (f : fillv) (r : rspectrum),
+  wf s1 -> wf s2 -> spec_op o s1 s2 m f = Ok r ->
   let w1 := wave s1 in let w2 := wave (conv s2 (wu s1)) in
   let mn := qmin (wmin w1) (wmin w2) in let mx := qmax (wmax w1) (wmax w2) in
   exists (dw : Qc) (num : Z),
@@ -37,8 +37,8 @@ Print Assumptions C13_common_grid.
    that grid wavelength - the piecewise-linear interpolant inside an operand's range, the fill value
    (below, above) outside; the result carries the left operand's units *)
 Theorem C13_pointwise :
-  forall (fx : bool) (o : binop) (s1 s2 : spectrum) (m : sampling) (f : fillv) (r : rspectrum),
-  wf s1 -> wf s2 -> spec_op fx o s1 s2 m f = Ok r ->
+  forall (o : binop) (s1 s2 : spectrum) (m : sampling) (f : fillv) (r : rspectrum),
+  wf s1 -> wf s2 -> spec_op o s1 s2 m f = Ok r ->
   let s2' := conv s2 (wu s1) in
   rwu r = wu s1 /\ rvu r = vu s1 /\ length (rvalue r) = length (rwave r) /\
   forall i, (i < length (rwave r))%nat -> exists y1 y2,
@@ -63,42 +63,48 @@ Proof. intros w v f x Hi Hl Hn. split. apply denotes_total; auto. intros y y'. a
 Print Assumptions C13_denotation_is_a_function.
 
 (* the operation fails exactly when the sampling is undefined (an operand with a single sample whose
-   spacing is needed) - for a scalar fill value, or any fill value after the proposed fix *)
+   spacing is needed) - whatever the fill value *)
 Theorem C13_raises_only_for_undefined_sampling :
-  forall (fx : bool) (o : binop) (s1 s2 : spectrum) (m : sampling) (f : fillv),
-  (fx = true \/ exists c, f = FScalar c) ->
-  match spec_op fx o s1 s2 m f with
+  forall (o : binop) (s1 s2 : spectrum) (m : sampling) (f : fillv),
+  match spec_op o s1 s2 m f with
   | Ok _ => exists dw, sampling_of (wave s1) (wave (conv s2 (wu s1))) m = Ok dw
   | Err e => sampling_of (wave s1) (wave (conv s2 (wu s1))) m = Err e
   end.
 Proof. exact spec_op_errors. Qed.
 Print Assumptions C13_raises_only_for_undefined_sampling.
 
-(* the code as it is refuses the documented two-element fill value whenever the grid has more than two
-   points (finding C13-fill-pair; when it does return, C13_pointwise shows the values are right) *)
-Theorem C13_fill_pair_refuted :
-  exists (s1 s2 : spectrum) (lo hi : Qc), wf s1 /\ wf s2 /\
-    spec_op false OAdd s1 s2 SMin (FPair lo hi) = Err ValueError /\
-    exists r, spec_op true OAdd s1 s2 SMin (FPair lo hi) = Ok r.
-Proof. exact fill_pair_witness. Qed.
-Print Assumptions C13_fill_pair_refuted.
+(* the two-element fill value: at every grid wavelength each operand contributes lo below its OWN range,
+   hi above it, and its interpolant inside (the instance of C13_pointwise for fill_value = (lo, hi),
+   spelled out; before fix bbdee10 such a call raised ValueError) *)
+Theorem C13_fill_pair_below_above :
+  forall (o : binop) (s1 s2 : spectrum) (m : sampling) (lo hi : Qc) (r : rspectrum),
+  wf s1 -> wf s2 -> spec_op o s1 s2 m (FPair lo hi) = Ok r ->
+  let s2' := conv s2 (wu s1) in
+  forall i, (i < length (rwave r))%nat -> let x := nth i (rwave r) 0 in exists y1 y2,
+    nth i (rvalue r) XUnmodelled = apply o y1 y2 /\
+    (x < wmin (wave s1) -> y1 = lo) /\ (wmax (wave s1) < x -> y1 = hi) /\
+    (wmin (wave s1) <= x -> x <= wmax (wave s1) -> on_interpolant (wave s1) (value s1) x y1) /\
+    (x < wmin (wave s2') -> y2 = lo) /\ (wmax (wave s2') < x -> y2 = hi) /\
+    (wmin (wave s2') <= x -> x <= wmax (wave s2') -> on_interpolant (wave s2') (value s2') x y2).
+Proof. exact spec_op_fill_pair. Qed.
+Print Assumptions C13_fill_pair_below_above.
 
 (* (c) a + b = b + a and a * b = b * a as spectra (same grid, same values, same units), for the
    symmetric samplings 'min' and numeric ... *)
 Theorem C13_add_mul_commutative :
-  forall (fx : bool) (o : binop) (s1 s2 : spectrum) (m : sampling) (f : fillv),
+  forall (o : binop) (s1 s2 : spectrum) (m : sampling) (f : fillv),
   wu s1 = wu s2 -> vu s1 = vu s2 -> (o = OAdd \/ o = OMul) -> (m = SMin \/ exists d, m = SNum d) ->
-  spec_op fx o s1 s2 m f = spec_op fx o s2 s1 m f.
+  spec_op o s1 s2 m f = spec_op o s2 s1 m f.
 Proof. exact spec_op_comm. Qed.
 Print Assumptions C13_add_mul_commutative.
 
 (* ... and, for operands in different wavelength units, b.a is a.b re-expressed in b's unit (a numeric
    sampling is given in the left operand's unit) *)
 Theorem C13_add_mul_commutative_across_units :
-  forall (fx : bool) (o : binop) (a b : spectrum) (m : sampling) (f : fillv),
+  forall (o : binop) (a b : spectrum) (m : sampling) (f : fillv),
   vu a = VNone -> vu b = VNone -> (o = OAdd \/ o = OMul) -> (m = SMin \/ exists d, m = SNum d) ->
-  spec_op fx o b a (scale_sampling (ufac (wu a) (wu b)) m) f
-  = rmap_res (fun r => rto r (wu b)) (spec_op fx o a b m f).
+  spec_op o b a (scale_sampling (ufac (wu a) (wu b)) m) f
+  = rmap_res (fun r => rto r (wu b)) (spec_op o a b m f).
 Proof. exact spec_op_comm_units. Qed.
 Print Assumptions C13_add_mul_commutative_across_units.
 
@@ -129,9 +135,9 @@ Print Assumptions C13_vector_elementwise.
 (* (d) dispatch as it is in the code: x * s is s * x, the other reflected forms do not exist, an
    unsupported operand type raises TypeError *)
 Theorem C13_reflected_and_unsupported :
-  forall (fx : bool) (o : binop) (s : spectrum) (x : operand),
-  rdunder fx OMul s x = dunder fx OMul s x /\ (o <> OMul -> rdunder fx o s x = Err TypeError) /\
-  dunder fx o s POther = Err TypeError.
+  forall (o : binop) (s : spectrum) (x : operand),
+  rdunder OMul s x = dunder OMul s x /\ (o <> OMul -> rdunder o s x = Err TypeError) /\
+  dunder o s POther = Err TypeError.
 Proof. exact reflected_forms. Qed.
 Print Assumptions C13_reflected_and_unsupported.
 
@@ -139,10 +145,10 @@ Print Assumptions C13_reflected_and_unsupported.
    a numeric sampling converted along with the left operand): the result is the old result with its grid
    multiplied by the unit factor, the values unchanged, error cases included *)
 Theorem C13_unit_agnostic :
-  forall (fx : bool) (o : binop) (s1 s2 : spectrum) (m : sampling) (f : fillv) (u1 u2 : wunit),
+  forall (o : binop) (s1 s2 : spectrum) (m : sampling) (f : fillv) (u1 u2 : wunit),
   vu s1 = VNone -> vu s2 = VNone ->
-  spec_op fx o (to_wu s1 u1) (to_wu s2 u2) (scale_sampling (ufac (wu s1) u1) m) f
-  = rmap_res (fun r => rto r u1) (spec_op fx o s1 s2 m f).
+  spec_op o (to_wu s1 u1) (to_wu s2 u2) (scale_sampling (ufac (wu s1) u1) m) f
+  = rmap_res (fun r => rto r u1) (spec_op o s1 s2 m f).
 Proof. exact spec_op_unit_agnostic. Qed.
 Print Assumptions C13_unit_agnostic.
 
@@ -151,18 +157,18 @@ Print Assumptions C13_unit_agnostic.
    default fill value 0, are again unit-covariant: grid times the factor, values divided by it.
    _partial: products, quotients and powers of two densities are not densities and are not covered. *)
 Theorem C13_unit_agnostic_density_partial :
-  forall (fx : bool) (o : binop) (s1 s2 : spectrum) (m : sampling) (f : fillv) (u1 u2 : wunit),
+  forall (o : binop) (s1 s2 : spectrum) (m : sampling) (f : fillv) (u1 u2 : wunit),
   vu s1 <> VNone -> vu s2 <> VNone -> (o = OAdd \/ o = OSub) ->
-  spec_op fx o (to_wu s1 u1) (to_wu s2 u2) (scale_sampling (ufac (wu s1) u1) m) (fscale (/ ufac (wu s1) u1) f)
-  = rmap_res (fun r => rto_density r u1) (spec_op fx o s1 s2 m f).
+  spec_op o (to_wu s1 u1) (to_wu s2 u2) (scale_sampling (ufac (wu s1) u1) m) (fscale (/ ufac (wu s1) u1) f)
+  = rmap_res (fun r => rto_density r u1) (spec_op o s1 s2 m f).
 Proof. exact spec_op_unit_agnostic_density. Qed.
 Print Assumptions C13_unit_agnostic_density_partial.
 
 Theorem C13_unit_agnostic_density_times_unitless_partial :
-  forall (fx : bool) (o : binop) (s1 s2 : spectrum) (m : sampling) (u1 u2 : wunit),
+  forall (o : binop) (s1 s2 : spectrum) (m : sampling) (u1 u2 : wunit),
   vu s1 <> VNone -> vu s2 = VNone -> (o = OMul \/ o = ODiv) ->
-  spec_op fx o (to_wu s1 u1) (to_wu s2 u2) (scale_sampling (ufac (wu s1) u1) m) (FScalar 0)
-  = rmap_res (fun r => rto_density r u1) (spec_op fx o s1 s2 m (FScalar 0)).
+  spec_op o (to_wu s1 u1) (to_wu s2 u2) (scale_sampling (ufac (wu s1) u1) m) (FScalar 0)
+  = rmap_res (fun r => rto_density r u1) (spec_op o s1 s2 m (FScalar 0)).
 Proof. exact spec_op_unit_agnostic_density_left. Qed.
 Print Assumptions C13_unit_agnostic_density_times_unitless_partial.
 
@@ -188,10 +194,10 @@ Definition exB := mkS (map zq [2; 3; 4; 5; 6]%Z) (map zq [1; 1; 2; 2; 4]%Z) UNm 
 Definition xnum (x : xval) : Z := match x with XQ q => Qnum q | _ => (-1)%Z end.
 Example C13_nonvacuous :
   wf exA /\ wf exB /\
-  match spec_op false OAdd exA exB SMin (FScalar 0) with
+  match spec_op OAdd exA exB SMin (FScalar 0) with
   | Ok r => map (fun q : Qc => Qnum q) (rwave r) = [1; 2; 3; 4; 5; 6]%Z /\ map xnum (rvalue r) = [1; 3; 4; 7; 2; 4]%Z
   | Err _ => False end /\
-  match spec_op false OMul exA (to_wu exB UUm) (SNum (qq 1 2)) (FScalar 1) with
+  match spec_op OMul exA (to_wu exB UUm) (SNum (qq 1 2)) (FScalar 1) with
   | Ok r => length (rwave r) = 11%nat /\ nth 3 (rvalue r) XUnmodelled = XQ (qq 5 2)
   | Err _ => False end.
 Proof. unfold wf. simpl incr. repeat split; try discriminate; try reflexivity.
